@@ -85,13 +85,15 @@ RECURSIVE Conjuncts(_)
 Conjuncts(f) == IF f.k = "and" THEN Conjuncts(f.l) \o Conjuncts(f.r) ELSE <<f>>
 
 \* a chained comparison t0 r1 t1 r2 t2 ... is the conjunction of its links
-RECURSIVE Chain3(_, _, _)
-Chain3(lhs, guards, env) ==
+\* lt: the term whose value lhs is.  A term compared with the very same term denotes the same value on both sides in every
+\* concretisation, so the link is definite even when the value is abstract (interval comparison alone gives U for  far < far)
+RECURSIVE Chain3(_, _, _, _)
+Chain3(lt, lhs, guards, env) ==
   IF guards = <<>> THEN "T"
   ELSE LET g == Head(guards)
            r == TV(g.t, env)
-           x == Rel3(g.r, lhs, r)
-       IN IF x = "F" THEN "F" ELSE And3(x, Chain3(r, Tail(guards), env))
+           x == IF lt = g.t THEN (IF g.r \in {"eq", "le", "ge"} THEN "T" ELSE "F") ELSE Rel3(g.r, lhs, r)
+       IN IF x = "F" THEN "F" ELSE And3(x, Chain3(g.t, r, Tail(guards), env))
 
 \* does value v belong to sort s?  (always definite: tags are known even for abstract values)
 SortAdmits(s, v) == IF s = "i" THEN v[1] = 1 ELSE IF s = "s" THEN v[1] = 2 ELSE TRUE
@@ -176,7 +178,7 @@ Ground(f, env) ==
   CASE f.k = "true" -> TT
     [] f.k = "false" -> FF
     [] f.k = "atom" -> PAtom(f.p, [i \in DOMAIN f.args |-> TV(f.args[i], env)])
-    [] f.k = "cmp" -> Lit3(Chain3(TV(f.t, env), f.g, env))
+    [] f.k = "cmp" -> Lit3(Chain3(f.t, TV(f.t, env), f.g, env))
     [] f.k = "not" -> PNot(Ground(f.f, env))
     [] f.k = "and" -> LET a == Ground(f.l, env) IN IF a.k = "F" THEN FF ELSE PAnd(a, Ground(f.r, env))
     [] f.k = "or" -> LET a == Ground(f.l, env) IN IF a.k = "T" THEN TT ELSE POr(a, Ground(f.r, env))
@@ -194,7 +196,7 @@ Ground0(f, env) ==
   CASE f.k = "true" -> TT
     [] f.k = "false" -> FF
     [] f.k = "atom" -> PAtom(f.p, [i \in DOMAIN f.args |-> TV(f.args[i], env)])
-    [] f.k = "cmp" -> Lit3(Chain3(TV(f.t, env), f.g, env))
+    [] f.k = "cmp" -> Lit3(Chain3(f.t, TV(f.t, env), f.g, env))
     [] f.k = "not" -> PNot(Ground0(f.f, env))
     [] f.k = "and" -> PAnd(Ground0(f.l, env), Ground0(f.r, env))
     [] f.k = "or" -> POr(Ground0(f.l, env), Ground0(f.r, env))
